@@ -138,6 +138,27 @@ class RealRunner:
             if mz is None:
                 return {"kind": "raised", "msg": "dangling"}
             p = build(op["p"]["kind"], op["p"]["cfg"])
+            # requests are not always made with freshly constructed providers: every third request derives the provider
+            # from the previous provider object of that kind with model_copy(update=...), every other third by
+            # assigning the changed fields in place (both are legitimate ways to ask for a different environment)
+            self.nreq = getattr(self, "nreq", 0) + 1
+            prevs = self.__dict__.setdefault("prev_provider", {})
+            prev = prevs.get(op["p"]["kind"])
+            if prev is not None and self.nreq % 3 != 0:
+                fresh = p
+                diff = {k: getattr(fresh, k) for k in type(fresh).model_fields if getattr(fresh, k) != getattr(prev, k)}
+                try:
+                    if self.nreq % 3 == 1:
+                        cand = prev.model_copy(update=diff)
+                    else:
+                        for k, v in diff.items():
+                            setattr(prev, k, v)
+                        cand = prev
+                    if cand == fresh:
+                        p = cand
+                except Exception:  # noqa: BLE001
+                    p = fresh
+            prevs[op["p"]["kind"]] = p
             captured = {}
             orig = mz.memoize
 
